@@ -342,6 +342,18 @@ API = {
     'get_summary_graph': ('summary', lambda g, a: g.get_summary_graph(), 'ts', 'nx'),
 }
 
+SKELETON_APIS = {
+    'adjacency_matrix': lambda sk: sk.adjacency_matrix,
+    'to_numpy': lambda sk: sk.to_numpy(),
+    'to_networkx': lambda sk: sk.to_networkx(),
+    'to_dict': lambda sk: sk.to_dict(),
+    'nodes': lambda sk: sk.nodes,
+    'edges': lambda sk: sk.edges,
+    'get_node_names': lambda sk: sk.get_node_names(),
+    'get_edge_pairs': lambda sk: sk.get_edge_pairs(),
+    'copy': lambda sk: sk.copy(),
+}
+
 DICT_APIS = ('to_dict', 'to_dict_nometa', 'iter', 'node_to_dict', 'edge_to_dict')
 NEEDS_NODE = ('node_to_dict', 'get_nodes_one', 'get_edges_from', 'get_ancestral_graph', 'get_descendant_graph',
               'get_parents_graph', 'get_children_graph', 'get_contemporaneous_nodes')
@@ -570,6 +582,17 @@ class Lane(LaneBase):
                     c = gen_mut_case(rng, cls, api)
                     if c is not None:
                         yield c
+        # skeleton exports (oracle only: the skeleton re-derives everything from the graph; its exports are snapshots too)
+        for _ in range(2 * k):
+            for cls in ('plain', 'ts'):
+                for skapi in SKELETON_APIS:
+                    for warm in (False, True):
+                        c = gen_case(rng, cls, 'to_dict', 'first', True)
+                        if c is not None:
+                            if rng.random() < 0.5:       # fully undirected graphs have their own code paths
+                                c['edges'] = [[a, b, '--', m] for a, b, t, m in c['edges']]
+                            c.update(api='sk:' + skapi, warm=warm)
+                            yield c
         for family in (False, True):
             for _ in range(k):
                 for cls in ('plain', 'ts'):
@@ -621,6 +644,61 @@ class Lane(LaneBase):
         return case
 
     # --------------------------------------------------------------------------------------------------------
+    def run_skeleton(self, case):
+        """exports of graph.skeleton: mutate the export, then the graph (all readers), the graph's own matrix /
+        networkx exports and the next skeleton export must be what an untouched twin gives"""
+        from harness import impl
+        api = case['api'][3:]
+        tags = [f"{case['cls']}:sk:{api}", 'warm:' + str(int(case.get('warm', False)))]
+        triv = {'lines': [], 'impl': [], 'oracle': [], 'nontrivial': False, 'key': '', 'tags': tags}
+        try:
+            g, twin = build(case), build(case)
+        except Exception as ex:  # noqa: BLE001
+            triv['tags'] = tags + ['unbuildable:' + type(ex).__name__]
+            return triv
+        f = SKELETON_APIS[api]
+
+        def full(x):
+            out = [impl.snapshot(x)]
+            for name, h in (('adj', lambda: x.adjacency_matrix.tolist()), ('numpy', lambda: x.to_numpy()[0].tolist()),
+                            ('nx', lambda: sorted(map(tuple, x.to_networkx().edges()))),
+                            ('skadj', lambda: x.skeleton.adjacency_matrix.tolist()),
+                            ('skdict', lambda: dumps(x.skeleton.to_dict())),
+                            ('sknx', lambda: sorted(map(sorted, x.skeleton.to_networkx().edges())))):
+                try:
+                    out.append((name, h()))
+                except Exception as ex:  # noqa: BLE001
+                    out.append((name, '!' + type(ex).__name__))
+            return out
+        oracle = []
+        try:
+            if case.get('warm'):
+                for x in (g, twin):
+                    for h in (lambda: x.adjacency_matrix, x.to_networkx, x.is_dag, lambda: x.to_numpy()):
+                        try:
+                            h()
+                        except Exception:  # noqa: BLE001
+                            pass
+            e1 = f(g.skeleton)
+            deep_mutate(e1)
+            if full(g) != full(twin):
+                a, b = full(g), full(twin)
+                what = [x[0] if isinstance(x, tuple) else 'snapshot' for x, y in zip(a, b) if x != y]
+                nested = is_nested(g.meta) or any(is_nested(n.meta) for n in twin.get_nodes()) or any(
+                    is_nested(e.meta) for e in twin.get_edges())
+                sig = f'C06-unexpected:skeleton.{api}'
+                if api in ('to_dict', 'nodes', 'edges') and nested and set(what) <= {'snapshot', 'skdict'}:
+                    # shallow metadata copy (Node / Edge constructors and to_dict copy the top-level dict only): D9 family
+                    sig = f'C06-D9-to_dict-shallow-meta:skeleton.{api}'
+                oracle.append(f'{sig} | {case["cls"]} skeleton.{api}: mutating the export changed the '
+                              f'graph or a later export ({",".join(map(str, what))}); warm={case.get("warm")}')
+        except Exception as ex:  # noqa: BLE001
+            triv['tags'] = tags + ['raises:' + type(ex).__name__]
+            return triv
+        return {'lines': [], 'impl': [], 'oracle': oracle, 'nontrivial': bool(case['edges']),
+                'key': dumps([case['cls'], case['api'], case.get('warm'), case['nodes'], case['edges']]), 'tags': tags}
+
+    # --------------------------------------------------------------------------------------------------------
     def run_mut(self, case):
         """mutators that take or move a metadata container: after the call, (int) do two metadata cells of the graph
         share, (arg) does the graph share with the caller's dictionary, (old) does it share with the metadata of an
@@ -663,6 +741,8 @@ class Lane(LaneBase):
         api = case['api']
         if api in MUTATORS:
             return self.run_mut(case)
+        if api.startswith('sk:'):
+            return self.run_skeleton(case)
         tags = [f"{case['cls']}:{api}", 'order:' + case['order'], 'mutate:' + str(int(case['mutate']))]
         triv = {'lines': [], 'impl': [], 'oracle': [], 'nontrivial': False, 'key': '', 'tags': tags}
         try:
